@@ -764,3 +764,14 @@ def consecutive_from_zero(xs):
 
 def is_shipped_table(x, name):
     return _is_table(x)
+
+
+def is_empty_result(r):
+    import numpy as np
+    return isinstance(r, np.ndarray) and r.shape == (0, 3)
+
+
+def bag_is_empty(x):
+    if x is None:
+        raise ValueError("intermediate not available to the harness")
+    return len(list(x)) == 0
